@@ -62,6 +62,15 @@ func runC10(c *engine.Ctx, tier string) {
 		Sel: engine.Sel{Field: fTerm, Lit: true, Filter: func(p *engine.Path, i int) bool { return p.Events[i].Op != "++" }},
 		Why: "the term only ever grows by one: any other write could repeat or lower a term"})
 	electionRule(c, "C10.1b")
+	// an election or resignation that was decided is persisted, and a failed write is retried
+	c.Outcome(engine.Outcome{ID: "C10.1e", Pkg: pkgMastershipCtl, Root: "Reconciler.Reconcile", Min: 2,
+		When: "#wrote(" + fMaster + ")",
+		Must: []engine.Sel{{Call: stCfgUpdStat}},
+		Why:  "a master that is chosen (or a resignation) only counts once it is in the configuration record: the proposal and configuration controllers read it from there"})
+	c.Outcome(engine.Outcome{ID: "C10.1f", Pkg: pkgMastershipCtl, Root: "Reconciler.Reconcile", Min: 1,
+		When:    "#wrote(" + fMaster + ") && #errIsNot(" + stCfgUpdStat + "|errors.IsNotFound) && #errIsNot(" + stCfgUpdStat + "|errors.IsConflict)",
+		Returns: "err!=nil",
+		Why:     "a store failure while persisting the election makes the pass fail so that it is retried"})
 	// configuration controller mirrors term/master only from the live values
 	c.Guard(engine.Guard{ID: "C10.1c", Pkg: pkgConfigCtl, None: true, Rule: "K-own(rhs)",
 		Sel: engine.Sel{Field: fTerm, NotRHS: "@CFG.Status.Mastership.Term", Lit: true},
@@ -85,6 +94,7 @@ func runC10(c *engine.Ctx, tier string) {
 		{"C10.3d", "topo.Relation.SrcEntityID", "controller/utils.GetOnosConfigID()"},
 		{"C10.3e", "topo.Relation.TgtEntityID", "{@CONN}southbound/gnmi.Conn.TargetID()"},
 		{"C10.3f", "topo.Object.ID", "topo.ID({@CONN}southbound/gnmi.Conn.ID())"},
+		{"C10.3g", "topo.Object.Type", "topo.Object_RELATION"},
 	} {
 		c.Guard(engine.Guard{ID: x.id, Pkg: pkgConnectionCtl, None: true, Rule: "K-own(rhs)",
 			Sel: engine.Sel{Field: x.field, NotRHS: x.rhs, OnlyLit: true},
